@@ -339,6 +339,36 @@ def merge_cases_padded():
         yield {'ro': ro, 'msg': to_text(doc), 'meta': dict(meta, cls=cls, n=2, para='padded-ids')}
 
 
+def decoy_payload_messages(sids=('A', 'B'), its=('i1', 'i2')):
+    """payload-carrying messages whose carried stories / items hold, deep inside a free-form payload, elements named
+    item / story / storyID / itemID: they are content of the carried element, not further carried elements"""
+    mid = 5
+
+    def ditem(iid):
+        return item(iid, slug='carried ' + iid, extra=[decoy_block()])
+
+    def dstory(sid):
+        return story(sid, body=[ditem('x1'), p('para'), item('x2')], slug='Carried ' + sid)
+    tgt_s, tgt_i = sids[-1], its[0]
+    yield 'StoryAppend', story_append(mid, [dstory('N1'), dstory('N2')]), {}
+    yield 'StoryInsert', story_insert(mid, tgt_s, [dstory('N1')]), {}
+    yield 'StoryReplace', story_replace(mid, tgt_s, [dstory('N1'), dstory('N2')]), {}
+    yield 'EAStoryInsert', element_action(mid, 'INSERT', [ref('storyID', tgt_s)], [[dstory('N1')]]), {}
+    yield 'EAStoryReplace', element_action(mid, 'REPLACE', [ref('storyID', tgt_s)], [[dstory('N1')]]), {}
+    yield 'ItemInsert', item_insert(mid, tgt_s, tgt_i, [ditem('n1'), ditem('n2')]), {}
+    yield 'ItemReplace', item_replace(mid, tgt_s, tgt_i, [ditem('n1'), ditem('n2')]), {}
+    yield 'EAItemInsert', element_action(mid, 'INSERT', ea_target(tgt_s, tgt_i), [[ditem('n1'), ditem('n2')]]), {}
+    yield 'EAItemReplace', element_action(mid, 'REPLACE', ea_target(tgt_s, tgt_i), [[ditem('n1')]]), {}
+    yield 'StorySend', story_send(mid, tgt_s, body=[p('t'), E('storyItem', E('itemID', text='q1'), decoy_block()), E('storyItem', E('itemID', text='q2'))]), {}
+    yield 'RunningOrderReplace', ro_replace(mid, [dstory('R1'), dstory('R2')]), {}
+
+
+def merge_cases_decoy_payload():
+    ro = to_text(make_ro(['A', 'B'], layout='plain'))
+    for cls, doc, meta in decoy_payload_messages():
+        yield {'ro': ro, 'msg': to_text(doc), 'meta': dict(meta, cls=cls, n=2, layout='decoy-payload', para='decoy-payload')}
+
+
 def merge_cases_other():
     for n in (0, 2):
         for layout in ('plain', 'trailing'):
